@@ -44,6 +44,7 @@ class Sched:
         self.e = e
         self.max_preempt = max_preempt      # None: unbounded; n: at most n switches away from a thread that could have continued
         self.preempts = 0
+        self.deterministic = False          # True: no choice is ever recorded (always the first candidate): one canonical schedule
         self.threads = []
         self.main = SimThread(self, 0, None, "main")
         self.threads.append(self.main)
@@ -104,7 +105,7 @@ class Sched:
             en.remove(cur); en.insert(0, cur)          # choice 0 = the running thread continues
             if self.max_preempt is not None and self.preempts >= self.max_preempt:
                 en = [cur]
-        k = self.e.choose(len(en)) if len(en) > 1 else 0
+        k = self.pick(len(en))
         nxt = en[k]
         if cur in en and nxt is not cur:
             self.preempts += 1
@@ -129,9 +130,49 @@ class Sched:
                 return
             raise ThreadAbort()
 
+    def pick(self, n):
+        if n <= 1 or self.deterministic:
+            return 0
+        return self.e.choose(n)
+
     def yield_point(self, e=None, why=""):
         cur = self.current
         self._pick_and_switch(cur)
+
+    def sleep_point(self):
+        """thread::sleep in a polling loop: another runnable thread gets the processor (a free choice that does not count
+        as a preemption). If nobody else can run, the poller's condition can never change: after a few idle rounds that is
+        a livelock (the poll would spin forever)."""
+        cur = self.current
+        others = [t for t in self.threads if t is not cur and t.enabled()]
+        if not others:
+            self.idle_sleeps = getattr(self, "idle_sleeps", 0) + 1
+            if self.idle_sleeps > 3:
+                blocked = [(t.name, t.block[0] if t.block else t.state) for t in self.threads if t.state != "done" and t is not cur]
+                raise PropertyViolation("sched:livelock", f"{cur.name} polls in a sleep loop while no other thread can run; others: {blocked}")
+            return
+        self.idle_sleeps = 0
+        self.switches += 1
+        if self.switches > self.max_switches:
+            raise BudgetExceeded("scheduler switch budget exceeded")
+        k = self.pick(len(others))
+        nxt = others[k]
+        if nxt.state == "blocked":
+            b = nxt.block
+            if b[0] == "mutex":
+                b[1].owner = nxt
+            nxt.state, nxt.block = "ready", None
+        self.log.append((cur.name, "sleep")); self.log.append(("run", nxt.name))
+        self.current = nxt
+        nxt.sem.release()
+        cur.sem.acquire()
+        if self.abort:
+            if cur is self.main:
+                if self.failure is not None:
+                    f, self.failure = self.failure, None
+                    raise f
+                return
+            raise ThreadAbort()
 
     def block_on(self, what):
         cur = self.current
@@ -263,7 +304,7 @@ def condvar_notify(e, c, a):
     if c.endswith("notify_all"):
         woken, cv.waiters = cv.waiters, []
     else:
-        k = e.choose(len(cv.waiters)) if len(cv.waiters) > 1 else 0      # which waiter wakes is not specified
+        k = s.pick(len(cv.waiters))      # which waiter wakes is not specified
         woken = [cv.waiters.pop(k)]
     for t in woken:
         t.block = ("mutex", t.block[2])          # must re-acquire the mutex before returning from wait
